@@ -100,3 +100,23 @@ package keystore
 //@   assert-at call ParsePubKey parsed-from-that-plaintext: arg0 == lastresult("Decrypt#5")
 //@   assert-at return#-1 image-built-from-what-was-read: result0 != nil && !result0.unlocked && result0.addrs == managedAddresses && len(result0.remark) == len(lastresult("fetchRemark", 0))
 //@   assert-at return#-1 counters-and-keys-as-stored: result0.branchInfo.nextInternalIndex == lastresult("fetchChildNum", 0) && result0.branchInfo.nextExternalIndex == lastresult("fetchChildNum", 1) && result0.cryptoKeyPrivEncrypted == lastresult("fetchCryptoKeys", 1) && result0.acctInfo.acctType == lastresult("fetchAccountUsage") && result0.storage == lastresult("GetBucketMeta") && result0.keystoreName == lastresult("Name")
+
+// ---- acknowledged changes are the ones in force and in the store (C02)
+//@ ghost loadFailed bool
+
+//@ func loadAddrManager
+//@   sets loadFailed = loadFailed || err != nil
+
+//@ func NewKeystoreManagerForPoC
+//@   requires nothing-failed-yet: !loadFailed
+//@ func NewKeystoreManagerForPoC$1
+//@   ensures opens-only-if-every-keystore-loaded: err == nil ==> !loadFailed
+//@   loop * invariant every-keystore-so-far-loaded: !loadFailed
+
+//@ func (*AddrManager).changeRemark
+//@   assert-at return#-1 stored-remark-follows-the-request: (len(newRemark) == 0 ==> lastresult("deleteRemark") == nil) && (len(newRemark) > 0 ==> lastresult("putRemark") == nil)
+//@   assert-at call deleteRemark cleared-in-this-keystore-bucket: arg0 == amBucket && len(newRemark) == 0
+//@   assert-at call putRemark stored-in-this-keystore-bucket: arg0 == amBucket && len(newRemark) > 0
+
+//@ func (*KeystoreManagerForPoC).ChangePubPassphrase
+//@   assert-at return acknowledged-change-is-in-force: result == nil ==> kmc.pubPassphrase == newPubPass
